@@ -9,7 +9,7 @@ import z3
 
 from . import smt
 from .ctx import Undecided, PathEnd, PyExc
-from .values import (SV, Ref, Rope, SymSeq, Ext, ExcVal, BigInt, Closure, BoundMethod, ValMethod, Opaque,
+from .values import (SV, Ref, Rope, SymSeq, Ext, ExcVal, BigInt, Closure, BoundMethod, ValMethod, Opaque, OptV,
                      z, tag_of, concrete)
 from .interp import mk, truth, as_bytes_term, as_str_term, py_exc
 
@@ -39,6 +39,7 @@ class Models:
 
     # ------------------------------------------------------------------ operators
     def binop(self, c, op, a, b, node):
+        a, b = c.force(a), c.force(b)
         if isinstance(a, BigInt) or isinstance(b, BigInt):
             if isinstance(op, ast.BitXor) and isinstance(a, BigInt) and isinstance(b, BigInt) \
                     and a.order == b.order and a.xor_with is None and b.xor_with is None:
@@ -203,6 +204,10 @@ class Models:
             raise Undecided(f"equality on {ta}")
 
     def compare(self, c, op, a, b, node):
+        if isinstance(op, (ast.Is, ast.IsNot)) and (a is None or b is None) and (isinstance(a, OptV) or isinstance(b, OptV)):
+            o = a if isinstance(a, OptV) else b
+            return o.isnone if isinstance(op, ast.Is) else z3.Not(o.isnone)
+        a, b = c.force(a), c.force(b)
         if isinstance(op, ast.Eq):
             return self.eq(c, a, b)
         if isinstance(op, ast.NotEq):
@@ -291,6 +296,7 @@ class Models:
 
     # ------------------------------------------------------------------ attributes
     def getattr_(self, c, obj, attr, node):
+        obj = c.force(obj)
         if isinstance(obj, Ref):
             cell = c.cell(obj)
             if cell.kind == "obj":
@@ -343,6 +349,7 @@ class Models:
 
     # ------------------------------------------------------------------ subscripts
     def subscript(self, c, obj, idx, node):
+        obj, idx = c.force(obj), c.force(idx)
         if isinstance(obj, Ref):
             cell = c.cell(obj)
             if cell.kind == "dict":
@@ -442,6 +449,7 @@ class Models:
         raise Undecided(f"subscript store on {tag_of(obj)}")
 
     def slice_(self, c, obj, lo, hi, node):
+        obj, lo, hi = c.force(obj), c.force(lo), c.force(hi)
         if isinstance(obj, (tuple,)):
             okl, l = concrete(lo) if lo is not None else (True, None)
             okh, h = concrete(hi) if hi is not None else (True, None)
